@@ -439,21 +439,24 @@ fn rand(
 pub fn run_c01(p: &Params) -> Outcome {
     let nt = |f: &OFacts| f.ready >= 1 && f.pending >= 1 && f.cond_not_stored >= 1;
     let mut out = exh("C01", p, "c01-exh", Flv::Sync, Focus::Values, if p.thorough { 5 } else { 4 }, 2, &nt);
-    out.merge(rand("C01", p, "c01-rand", Flv::Sync, p.n(60_000, 1_000_000), 60, 300, &nt));
+    out.merge(exh("C01", p, "c01-exh-async", Flv::Async, Focus::Values, if p.thorough { 4 } else { 3 }, 2, &nt));
+    out.merge(rand("C01", p, "c01-rand", Flv::Both, p.n(60_000, 1_000_000), 60, 300, &nt));
     out
 }
 
 pub fn run_c02_seq(p: &Params) -> Outcome {
     let nt = |f: &OFacts| f.wake_obligations >= 1;
     let mut out = exh("C02", p, "c02-exh", Flv::Sync, Focus::Wakes, if p.thorough { 7 } else { 6 }, 3, &nt);
-    out.merge(rand("C02", p, "c02-rand", Flv::Sync, p.n(60_000, 1_000_000), 30, 200, &nt));
+    out.merge(exh("C02", p, "c02-exh-async", Flv::Async, Focus::Wakes, if p.thorough { 6 } else { 5 }, 3, &nt));
+    out.merge(rand("C02", p, "c02-rand", Flv::Both, p.n(60_000, 1_000_000), 30, 200, &nt));
     out
 }
 
 pub fn run_c03_seq(p: &Params) -> Outcome {
     let nt = |f: &OFacts| f.none >= 1 && f.subs_created >= 1 && (f.upgrades_ok + f.upgrades_none + f.into_shared) >= 1;
     let mut out = exh("C03", p, "c03-exh", Flv::Sync, Focus::Handles, if p.thorough { 7 } else { 6 }, 2, &nt);
-    out.merge(rand("C03", p, "c03-rand", Flv::Sync, p.n(60_000, 1_000_000), 20, 120, &nt));
+    out.merge(exh("C03", p, "c03-exh-async", Flv::Async, Focus::Handles, if p.thorough { 6 } else { 5 }, 2, &nt));
+    out.merge(rand("C03", p, "c03-rand", Flv::Both, p.n(60_000, 1_000_000), 20, 120, &nt));
     out
 }
 
